@@ -25,6 +25,8 @@ var c15Replacements = [][3]string{{"time", "time", "Duration"}, {"io", "io", "Re
 type c15Input struct {
 	Dst   string  `json:"dst"`
 	InPkg bool    `json:"inpkg"`
+	// the package name the output file declares (SetDstPkgName); "" = not recorded
+	DstName string `json:"dstName,omitempty"`
 	Ops   [][]any `json:"ops"`
 	// cli: the allocators as a template sees them at render time (a probe template over a generic interface)
 	Cli *c15Cli `json:"cli,omitempty"`
@@ -63,10 +65,10 @@ func (c15) Generate(c *Ctx) []any {
 }
 
 func genC15(r *rand.Rand, n int) c15Input {
-	pkgNames := []string{"http", "http0", "http1", "mock", "a", "b", "foo", "foo0", "é", "x_y"}
-	pathPool := []string{"net/http", "x/http", "y/http", "z/http0", "q/http1", "example.com/m/foo", "example.com/m/foo/v2", "a", "b", "ä/b", "a/b", "a-b", "a.b/c", "example.com/dst"}
+	pkgNames := []string{"http", "http0", "http1", "mock", "a", "b", "foo", "foo0", "é", "x_y", "dst", "dst"}
+	pathPool := []string{"net/http", "x/http", "y/http", "z/http0", "q/http1", "example.com/m/foo", "example.com/m/foo/v2", "a", "b", "ä/b", "a/b", "a-b", "a.b/c", "example.com/dst", "example.com/dst"}
 	prefixes := []string{"a", "a1", "a2", "r", "ret", "http", "http0", "_", "x", "é", "", "1", "a10", "a01"}
-	in := c15Input{Dst: "example.com/dst", InPkg: r.Intn(2) == 0}
+	in := c15Input{Dst: "example.com/dst", InPkg: r.Intn(2) == 0, DstName: pick(r, []string{"", "dst", "dst", "dst_test", "http"})}
 	scopes := 0
 	// a small pool per history makes collisions frequent
 	np := 1 + r.Intn(len(prefixes))
@@ -138,6 +140,9 @@ func (c15) Run(c *Ctx, raw json.RawMessage) Case {
 		return c15RunCli(c, &in)
 	}
 	reg, _ := template.NewRegistry(nil, in.Dst, in.InPkg)
+	if in.DstName != "" {
+		reg.SetDstPkgName(in.DstName)
+	}
 	var scopes []*template.MethodScope
 	outs := []string{}
 
@@ -167,14 +172,16 @@ func (c15) Run(c *Ctx, raw json.RawMessage) Case {
 			p := reg.AddImport(name, path)
 			if p == nil {
 				outs = append(outs, "<nil>")
-				if !(in.InPkg && path == in.Dst) {
+				// nil: the package the output file itself belongs to (in-package, or a mock written into a third package
+				// whose name the file declares)
+				if !(path == in.Dst && (in.InPkg || (in.DstName != "" && name == in.DstName))) {
 					bad("nil-import", "AddImport(%q,%q) returned nil", name, path)
 				}
 				break
 			}
 			q := p.Qualifier()
 			outs = append(outs, q)
-			if in.InPkg && path == in.Dst {
+			if path == in.Dst && (in.InPkg || (in.DstName != "" && name == in.DstName)) {
 				bad("self-import", "destination package imported into itself")
 			}
 			if prev, ok := qualOfPath[path]; ok {
@@ -258,7 +265,7 @@ func (c15) Run(c *Ctx, raw json.RawMessage) Case {
 			if t.seen[v.Name] {
 				bad("suggest-collision", "AddVar named the variable %q, which was already visible", v.Name)
 			}
-			self := in.InPkg && ppath == in.Dst
+			self := ppath == in.Dst && (in.InPkg || (in.DstName != "" && pname == in.DstName))
 			if ppath == "" {
 				// the bare type name is used in the signature: it has to be a visible name from now on
 				if !sc.NameExists(tname) {
